@@ -56,12 +56,15 @@ def inner_texts(rng, tier):
            "select '(', ')', '((', 'a)b' from t where c = '--x' and d = '/* y */'", 'select ";", "a,b", `c;d`, `e(f` from t',
            "select split(x, ';'), ',' from t where y in (';', ',', '.')", "select '@v', '@@sv', '`q`', '\"' from t",
            # every spelling of a name: bare, back-quoted plain word, back-quoted reserved word, back-quoted with blanks / dots
+           # backslashes inside literals (regular expressions, LIKE escapes, paths)
+           "select * from t where path = 'C:\\data\\in.csv' and name like '50\\%' and code ~ '^\\d+$'", "select 'a\\\\b', 'x\\ny' from t",
+           'select "p\\q" from t where r = \'\\\\\'',
            "select `order`, `from`, price from orders where `group` = 1", "select `a`.`b`, `c` as `d` from `t` as `u`",
            "select `x`, x, `X y`, `p.q` from db.`tbl` where `select` > 0 order by `limit`"]
     base = [s for s in harvest()[D] if '(' not in s or s.count('(') == s.count(')')]
     rng.shuffle(base)
     out += [s for s in base[: (60 if tier == 'quick' else 400)] if s.lower().lstrip().startswith('select')]
-    frags = ["'a'", "''", "'it''s'", "'\\''", '"q"', '@v', '@@s', '`x y`', '`x`', '`order`', '`from`', '`A1`', '`_u`.`v`', '1.0', '42', 'a.b', '(1)', '( )', '-- c\n', '/* m\n */',
+    frags = ["'a'", "''", "'it''s'", "'\\''", '"q"', '@v', '@@s', '`x y`', "'a\\b'", "'\\d+'", "'50\\%'", '`x`', '`order`', '`from`', '`A1`', '`_u`.`v`', '1.0', '42', 'a.b', '(1)', '( )', '-- c\n', '/* m\n */',
              ' ', '  ', '\n', '\n  ', ',', '=', 'select', 'from', 't', 'where', 'x', '*', '+',
              "'p\nq'||r", "'p\nq',s", '"m\nn"=k', "'a\n\nb'||c and d", '/* x\n y */z',
              "';'", "'a;b'", "'; '", "';;'", "'('", "')'", "'--'", "'/*'", "','", '";"', '`a;b`', "'a ;  b'"]
@@ -260,10 +263,13 @@ def run(tier, seed, replay=None):
         vals = coq_eval_lists(out)
         notverb += [k + i - 1 for i in parse_coq_list(vals[-1])]
     nviol = 0
+    mism_q = {tts_rows[i][0] for i in mism}
     for i in notverb:
         q, stored = keys[i]
         ename, rew = uniq[(q, stored)][0]
-        if rew and rew <= known_types:
+        if rew and rew <= known_types and q not in mism_q:
+            # the listed defect is what Model/RawQuery.tokens_to_string does with rewritten values: a text on which the
+            # implementation no longer follows that model fails for another reason
             for f in findings:
                 if rew & set(f['classifier']['token_types']):
                     R.known_finding(f'{f["id"]}: {f["what"]}')
